@@ -251,6 +251,10 @@ class DataGen(object):
         if pick < 0.3:
             # (DC$ and IM$ are also arrays of this workload: a scalar and an array of one name are two variables)
             tg = ("var", r.choice(["C1$", "C2$", "DC$", "IM$"]))
+            if tg[1] in ("C1$", "C2$") and r.random() < 0.4 and not any(d[0] == tg[1] for d in self.dims_line):
+                # some programs DIMension the scalar (legal, and a no-op in Color BASIC), the others of the same worker
+                # process use the same name without: what one program declares is nothing to the next
+                self.dims_line.append((tg[1], [], []))
         elif pick < 0.65:
             tg = ("arr", r.choice(["IM$", "IN$"]), [n(r.choice([0, 3, 10]))])        # never DIMensioned
         else:
